@@ -395,3 +395,7 @@ def run(ctx):
             else:
                 ctx.ok('C15.2-char-width', inst, 'no byte-length restriction below 4 on the way to visit_char', ctx.where(CB_, vb))
     ctx.anchor(n_vc >= 1, 'visit_char calls in deserialize_char')
+
+    from ..families import check_error_swallow as _swallow
+    ctx.rule('C15.6-errors-surface', 'in the functions of this property that can themselves report failure, the Result of one of the repository\'s own fallible functions is never turned into "nothing" or a default (ok(), unwrap_or*, map_or*): an error must surface as an error, not as a value the callee never produced; a rule about what must not be there (exercised on the fixture every run)', floor=0)
+    _swallow(ctx, P, 'C15.6-errors-surface', ('erltf_serde::ser::', 'erltf_serde::de::', 'erltf_serde::lib', 'erltf_serde::to_', 'erltf_serde::from_'))
